@@ -352,6 +352,25 @@ class SimFS(object):
         self._saved = (real_open, real_exists)
         builtins.open = sim_open
         os.path.exists = sim_exists
+        # other doors to the same files: io.open, and the private alias tokenize kept at import time (linecache reads
+        # source lines through tokenize.open)
+        import io as _io
+        import tokenize as _tokenize
+        self._saved_more = (_io.open, getattr(_tokenize, "_builtin_open", None))
+        real_tok_open = self._saved_more[1]
+
+        def sim_tok_open(file, mode="r", *args, **kwargs):
+            if is_sim(file):
+                q = posixpath.normpath(file)
+                if q not in fs.files:
+                    raise _oserror("ENOENT", file)
+                fs.log.emit("fs", op="open", path=q, mode="rb", via="tokenize")
+                return _io.BytesIO(fs.files[q])
+            return real_tok_open(file, mode, *args, **kwargs)
+
+        _io.open = sim_open
+        if real_tok_open is not None:
+            _tokenize._builtin_open = sim_tok_open
         # directory / file manipulation through os.*: simulated for /sim paths (and recorded as side effects)
         self._saved_os = {}
 
@@ -450,6 +469,14 @@ class SimFS(object):
         if self._saved:
             builtins.open, os.path.exists = self._saved
             self._saved = None
+            import io as _io
+            import tokenize as _tokenize
+            more = getattr(self, "_saved_more", None)
+            if more:
+                _io.open = more[0]
+                if more[1] is not None:
+                    _tokenize._builtin_open = more[1]
+                self._saved_more = None
             for name, real in getattr(self, "_saved_os", {}).items():
                 setattr(os, name, real)
             for name, real in getattr(self, "_saved_path", {}).items():
